@@ -318,9 +318,12 @@ def show(c: dict) -> dict:
     return out
 
 
-def judge(check: core.Check, cases: list[dict], label: str, rnd: Optional[random.Random] = None, n_fresh: int = 0) -> list[dict]:
+def judge(check: core.Check, cases: list[dict], label: str, rnd: Optional[random.Random] = None, n_fresh: int = 0,
+          labels: Optional[list[str]] = None) -> list[dict]:
+    """labels[i] (default: label) names the source of cases[i] in the payloads."""
     rnd = rnd or random.Random(0)
     obs = observe(cases, rnd, n_fresh)
+    source = {i: (labels[i] if labels else label) for i in range(len(cases))}
     verdicts, stats = adjudicate_parallel("CallableRoutesTrace", "CallableRoutesTrace.cfg", obs, batch=2500, parallel=8)
     check.add_trace_stats(stats)
     check.evals(len(obs))
@@ -338,7 +341,7 @@ def judge(check: core.Check, cases: list[dict], label: str, rnd: Optional[random
             if c["child"]["sig"] and any(b["sig"] for b in c["bases"]):
                 check.nontrivial(core.canon(c))
         for v in verdicts.get(o["tid"], []):
-            payload = {"case": c, **show(c), "real": o["real"], "fresh": o["fresh"], "source": label,
+            payload = {"case": c, **show(c), "real": o["real"], "fresh": o["fresh"], "source": source[o["tid"]],
                        "expected_binds": [[b[:2] for b in fb] for fb in o["fbs"]], "actual_binds": [b[:2] for b in o["gb"]]}
             if v.startswith("viol:"):
                 check.violation(core.canon(c), v[5:], payload)
@@ -349,7 +352,7 @@ def judge(check: core.Check, cases: list[dict], label: str, rnd: Optional[random
             else:
                 raise core.MachineryError(f"{v} for {show(c)}: {o}")
     for o in obs[:: max(1, len(obs) // 3)][:3]:
-        check.sample({"source": label, **show(o["case"]), "real": o["real"], "fresh": o["fresh"],
+        check.sample({"source": source[o["tid"]], **show(o["case"]), "real": o["real"], "fresh": o["fresh"],
                       "shapes_bound_by_expected": [len(fb) for fb in o["fbs"]], "shapes_bound_by_actual": len(o["gb"])}, limit=12)
     return obs
 
@@ -469,8 +472,9 @@ def run_slices(check: core.Check, quick: bool, rnd: random.Random) -> dict:
         if not cases:
             raise core.MachineryError(f"no cases emitted by TLC for {cfg}")
     allcases = [c for _cfg, cs, _t in batches for c in cs]
-    judge(check, allcases, "tlc-exhaustive-routes", rnd=rnd, n_fresh=150 if quick else 1500)
-    judge(check, list(uniq.values()), "tlc-simulate-routes", rnd=rnd, n_fresh=40 if quick else 400)
+    sims = list(uniq.values())
+    judge(check, allcases + sims, "tlc-routes", rnd=rnd, n_fresh=180 if quick else 1900,
+          labels=["tlc-exhaustive-routes"] * len(allcases) + ["tlc-simulate-routes"] * len(sims))
     for r, k in check.cov.get("routes", {}).items():
         if k["accepted"] == 0 or k["accepted"] == k["observations"]:
             raise core.MachineryError(f"route {r}: the real code accepted {k['accepted']} of {k['observations']} cases (vacuous)")
